@@ -848,7 +848,7 @@ func buildCases(c *ctx) []rCase {
 				return b.New(b.Flags)
 			}, bodyMaxUs: bodyUs, envKeys: keys, stageEnv: stageEnv, failEvery: map[bool]int{false: 8, true: 2}[name == "file-overlap"],
 			failEarly: name == "file-overlap",
-			opts: func(o *options.RunOptions) {}})
+			opts:      func(o *options.RunOptions) {}})
 	}
 	fileCase("file-constant-users-constant", `scenario: scn
 limits:
